@@ -94,6 +94,8 @@ def interpret_resolver(p):
             return TOP
         if isinstance(e, ast.BinOp) and isinstance(e.op, ast.Div):
             return div(ev(e.left, env), ev(e.right, env))
+        if isinstance(e, ast.IfExp):
+            return join(ev(e.body, refine(e.test, env, True)), ev(e.orelse, refine(e.test, env, False)))
         if isinstance(e, ast.Call):
             fn = e.func
             d = dotted(fn) or ""
